@@ -220,12 +220,14 @@ finish_line(const char * extra)
 int
 main(void)
 {
-	char tmpdir[64] = "/tmp/verif-upper-XXXXXX";
+	char tmpdir[96];
 	char extra[256];
 	int sv[2];
 	size_t i;
 
 	setvbuf(stdout, NULL, _IOFBF, 1 << 16);
+	/* the socket directory lives inside the check's scratch directory (removed by the orchestrator) */
+	snprintf(tmpdir, sizeof(tmpdir), "%s/up-XXXXXX", getenv("H_UPPER_TMP") ? getenv("H_UPPER_TMP") : "/tmp");
 	if (mkdtemp(tmpdir) == NULL)
 		return (2);
 	hw_atexit_hook = record_handler;
